@@ -783,6 +783,7 @@ func TestVerif_C15(t *testing.T) {
 		}
 		return o
 	}
+	nLate := 0
 	lookup := func(c c15Case) c15Outcome {
 		if c.d[c15DSyntax] == c15SynBare {
 			c.value = 0
@@ -791,9 +792,10 @@ func TestVerif_C15(t *testing.T) {
 		if outcomes[i].done {
 			return outcomes[i]
 		}
-		// variant outside this tier's subset: judge it now, same machinery
+		// variant outside this tier's subset, or not reached before the time budget
+		// ran out: judge it now, same machinery (an evaluation, not a validation)
 		outcomes[i] = judge(c.text())
-		r.Validated(1)
+		nLate++
 		return outcomes[i]
 	}
 	bypasses := func(c c15Case, bit int) bool {
@@ -853,6 +855,8 @@ func TestVerif_C15(t *testing.T) {
 			byKey[key] = append(byKey[key], v)
 		}
 	}
+	r.Eval(nLate)
+	r.Set("texts_judged_during_reduction", nLate)
 	keys := make([]string, 0, len(byKey))
 	for k := range byKey {
 		keys = append(keys, k)
